@@ -1668,7 +1668,10 @@ def d2_warm_count(ck):
     for sl in dL:
         vl = _entry_value(fi, mod, w, sl, L)
         ll = _length_of(cx(fi.expand(vl, stop=(CEN,), strict=False))) if vl is not None else None
-        mates = [sc for sc in dC if fi.cfg.reachable(sc, sl, avoiding=[w]) or fi.cfg.reachable(sl, sc, avoiding=[w])]
+        # the bindings of the centre list on the same way into the loop; one
+        # parallel assignment `L, CEN = [], []` binds both at the same site
+        mates = [sc for sc in dC if sc is sl or fi.cfg.reachable(sc, sl, avoiding=[w])
+                 or fi.cfg.reachable(sl, sc, avoiding=[w])]
         if ll is None or not mates:
             ck.missing(rule, 'length of the centre-index list defined by `%s`' % u(sl)[:100])
             continue
